@@ -533,7 +533,7 @@ LAYOUT_MULTI = (2, lambda k: "a" * (k - k // 2) + "w" + "a" * (k // 2) + "w")
 
 def mc_reader(ck, prop_inv, neg_switch, neg_inv):
     base = {"NRowGroups": 2, "NCols": 2, "PagesPerChunk": 2, "SingleReadPerPage": "FALSE", "IgnoreReadError": "FALSE",
-            "TrustFooterOnly": "FALSE", "AcceptUnsupported": "FALSE"}
+            "TrustFooterOnly": "FALSE", "AcceptUnsupported": "FALSE", "SkipMagicCheck": "FALSE"}
     r = model_check("MC_Reader", base, prop_inv, workers=8, tag="mcreader", coverage=True)
     ck.cov["states"], ck.cov["transitions"] = r["distinct"], r["states"]
     ck.cov["spec_action_coverage"] = r["actions"]
@@ -656,6 +656,9 @@ def c11():
     ck = Check("C11", "fault_enumeration")
     q = ck.quick()
     mc_reader(ck, ["TruncationRejected", "TypeOK"], "TrustFooterOnly", "TruncationRejected")
+    model_check("MC_Reader", {"NRowGroups": 2, "NCols": 2, "PagesPerChunk": 2, "SingleReadPerPage": "FALSE", "IgnoreReadError": "FALSE", "TrustFooterOnly": "FALSE",
+                              "AcceptUnsupported": "FALSE", "SkipMagicCheck": "TRUE"}, ["TruncationRejected"], tag="mcreadermagic", expect_violation="TruncationRejected")
+    ck.cov["negative_controls"].append("MC_Reader with SkipMagicCheck (the repaired defect): TruncationRejected violated as required")
     ok = env_files(ck, ["AllTypes", "Document"] if q else None, 4 if q else 10, [LAYOUT_MULTI] if q else [LAYOUT_ONE, LAYOUT_MULTI])
     # files whose DATA looks like the tail of a file: the strings "\xff\xff\xff\xffPAR1" and "PAR1" (string pool entries 28, 29)
     for p in ok:
@@ -1270,7 +1273,7 @@ def foreign_case(rng, rows, ncols, comps, force=None):
             pages[g].insert(rng.randrange(len(pages[g]) + 1), 0)
         cols.append({"codec": force.get("codec") or rng.choice(CODECS), "literal": rng.random() < 0.4, "variant": rng.randrange(15), "pages": pages,
                      "seg": force.get("seg") or rng.choice(SEG_POLICIES), "pad": rng.randrange(16), "stats": rng.random() < 0.5,
-                     "extras": rng.random() < 0.3})
+                     "extras": rng.random() < 0.3, "absentbp": rng.random() < 0.4})
     return {"rows": rows, "rgsplit": rgsplit, "cols": cols, "extras": rng.random() < 0.5, "seed": rng.randrange(1 << 30),
             "fileoff": rng.choice(["start", "start", "zero", "end"])}
 
@@ -1670,6 +1673,22 @@ def c13():
                 ck.add("evaluations")
                 ck.add("failing_reader_schedules")
                 distinct.add((p.key, "rfailat", k, codec, len(sch)))
+        # long level runs: three instances one after the other whose pages hold 900-1000 records - all values present (A), 600
+        # present then 300 absent (B), and A again (tables or buffers sized by, or filled for, an earlier instance's longer runs)
+        def uniform(present, tok):
+            def val(n):
+                b = (lambda: [val(k) for k in n["kids"]]) if n["typ"] == "group" else (lambda: tok)
+                return b() if n["rep"] == "req" else ([b()] if present else [])
+            return [val(n) for n in p.schema]
+        ra = [uniform(True, i % 16) for i in range(1000)]      # B's runs fit into what A's longer run left behind
+        rb = [uniform(i < 600, i % 16) for i in range(900)]
+        for kinds in (("r", "r", "r"), ("w", "w", "w"), ("w", "r", "r")):
+            for codec in (CODECS if not q else CODECS[:1]):
+                insts = [{"kind": k, "page": 2000, "codec": codec, "poff": 2, "ops": ops_of("a" * len(rr) + "w", rr)} for k, rr in zip(kinds, (ra, rb, ra))]
+                p.cases.append({"page": 2, "codec": "snappy", "poff": 0, "ops": [], "sched": {"insts": insts, "schedule": [[1, 9999999], [2, 9999999], [3, 9999999]], "prior": "clean"}})
+                ck.add("evaluations")
+                ck.add("long_run_schedules")
+                distinct.add((p.key, "longruns", kinds, codec))
         for si, sch in enumerate(scheds3[:: max(1, len(scheds3) // 300)] if scheds3 else []):
             insts = [inst(p, cyc, "w", CODECS[(si + k) % 3], 2, 4) for k in range(3)]
             p.cases.append({"page": 2, "codec": "snappy", "poff": 0, "ops": [], "sched": {"insts": insts, "schedule": sch, "prior": "dirty"}})
@@ -1694,6 +1713,7 @@ def c13():
                 k += 1
             elif e.get("ev") == "Baseline" and 0 <= k < len(p.cases):
                 p.cases[k]["sched"]["baseline"] = e["digests"]
+                p.cases[k]["sched"]["unstable"] = e.get("unstable", [])
         if any("baseline" not in c["sched"] for c in p.cases):
             raise HarnessError("baseline process of %s did not cover every case" % p.key)
     run_programs(ok, "c13", timeout=2400, env_extra={"VERIF_GOMAXPROCS": "1"})
